@@ -334,7 +334,7 @@ impl Prop for C10 {
         vec![Dom::new("bfs-configs", self.configs.len() as u64, 1)
             .budget(self.tier.pick(170, 3000))
             .note(format!(
-                "one merged BFS per (language, initial store: empty / 1 / 3 / a crowd of 12 records, the last two levels shallower) to depth {} (thorough: +1 for the language-free store), followed by the same search without state matching to depth {} (every key it reaches must be known to the merged search); 20 operations enabled in every state (19 when C01 drives it without clear)",
+                "one merged BFS per (language, initial store: empty / 1 / 3 / a crowd of 12 records, the crowd one level shallower) to depth {} (thorough: +1 for the language-free store), followed by the same search without state matching to depth {} (every key it reaches must be known to the merged search); 20 operations enabled in every state (19 when C01 drives it without clear)",
                 self.depth(true),
                 self.depth(false)
             ))]
@@ -344,13 +344,15 @@ impl Prop for C10 {
         let sys = C10Sys { l, menu: menu(l), prop: "C10", allow_clear: !cx.c01 };
         let start: Vec<Op> = STARTS[s].iter().map(|i| Op::Add(*i)).collect();
         let cap = Duration::from_secs(self.tier.pick(120, 2400));
-        // from the crowd each replay costs twelve adds: two levels less
+        // from the crowd each replay costs twelve adds: one level less
         let crowd = STARTS[s].len() > 3;
-        let d = self.depth_for(l, true) - if crowd { 2 } else { 0 };
+        let d = self.depth_for(l, true) - if crowd { 1 } else { 0 };
         let out = bfs(&sys, cx, "merged_", vec![start.clone()], d, true, cap, None);
         cx.class(&format!("bfs:merged:depth{}", out.depth_completed));
         // dedup soundness cross-check (DESIGN.md §3.7b)
-        let out2 = bfs(&sys, cx, "unmerged_", vec![start], self.depth(false) - if crowd { 1 } else { 0 }, false, Duration::from_secs(self.tier.pick(40, 600)), Some(&out.seen));
+        // state outside the key (the index's counter vector, thread-local scratch) can only be seen without
+        // merging: from the crowd - where the candidate cap cuts - the unmerged search goes one level deeper
+        let out2 = bfs(&sys, cx, "unmerged_", vec![start], self.depth(false) + if crowd { 1 } else { 0 }, false, Duration::from_secs(self.tier.pick(60, 900)), Some(&out.seen));
         cx.class(&format!("bfs:unmerged:depth{}", out2.depth_completed));
         if out2.missing > 0 && !out.capped {
             cx.machinery(format!("C10 dedup cross-check: {} states reached without merging are unknown to the merged search (lang {}, start {})", out2.missing, l.tag(), s));
